@@ -42,7 +42,7 @@ func caseKey(files map[string]string, cfg parserCfg) []byte {
 }
 
 func hasDirective(s string) bool {
-	u := strings.ToUpper(s)
+	u := normLex(s)
 	return strings.Contains(u, "$GENERATE") || strings.Contains(u, "$INCLUDE") || strings.Contains(u, "$ORIGIN") || strings.Contains(u, "$TTL")
 }
 
@@ -68,7 +68,7 @@ func show(files map[string]string, cfg parserCfg) string {
 const kGenErrRecord = "generate-error-record"
 
 var (
-	safeModRe = regexp.MustCompile(`^\d{1,5}(,\d{1,2}(,[doxX])?)?$`)
+	safeModRe = regexp.MustCompile(`^\d{1,5}(,\d{1,2}(,[doxX])?)?$`) // applied to stripLex text
 	longNumRe = regexp.MustCompile(`\d{10}`)
 )
 
@@ -77,13 +77,15 @@ var (
 // read (anything but ${offset[,width[,base]]} with a small non-negative offset, width < 100, base
 // d/o/x/X, and no number of ten or more digits anywhere in the file). Over-approximation.
 func riskyModifier(files map[string]string) bool {
-	for _, txt := range files {
-		if !strings.Contains(strings.ToUpper(txt), "$GENERATE") {
+	for _, raw := range files {
+		txt := stripLex(raw)
+		g := strings.Index(asciiUpper(txt), "$GENERATE")
+		if g < 0 {
 			continue
 		}
 		// a $GENERATE can span physical lines (parentheses, quotes): once one is seen, the rest
 		// of the file is scanned
-		rest := txt[strings.Index(strings.ToUpper(txt), "$GENERATE"):]
+		rest := txt[g:]
 		if strings.Contains(rest, "${") && longNumRe.MatchString(rest) {
 			return true
 		}
@@ -102,11 +104,67 @@ func riskyModifier(files map[string]string) bool {
 	return false
 }
 
+// kGenEOF: a $GENERATE directive that ends right after its range at the end of the input is
+// reported at position 0:0.
+const kGenEOF = "generate-eof-position"
+
+var genEOFRe = regexp.MustCompile(`\$GENERATE[ \t]+[^ \t\n;"]+$`) // applied to normLex text
+
+func endsInBareGenerate(files map[string]string) bool {
+	for _, txt := range files {
+		if genEOFRe.MatchString(normLex(txt)) {
+			return true
+		}
+	}
+	return false
+}
+
+// kGenQuadratic: the text of a $GENERATE logical line is collected with s += token, which costs
+// time and allocation quadratic in the number of tokens.
+const kGenQuadratic = "generate-quadratic"
+
+const maxGenerateTokens = 400
+
+// longGenerate delimits the class: more than 400 tokens follow a $GENERATE in the same file (an
+// unbalanced parenthesis or quote can make the rest of the file one logical line).
+func longGenerate(files map[string]string) bool {
+	for _, raw := range files {
+		if cutLongGenerate(raw) != raw {
+			return true
+		}
+	}
+	return false
+}
+
+// cutLongGenerate truncates the text behind the 400th token after the first $GENERATE.
+func cutLongGenerate(raw string) string {
+	g := strings.Index(asciiUpper(raw), "$GENERATE")
+	if g < 0 {
+		// parentheses and carriage returns inside the keyword are dropped by the lexer
+		if !strings.Contains(normLex(raw), "$GENERATE") {
+			return raw
+		}
+		g = strings.IndexByte(raw, '$')
+	}
+	n, in := 0, false
+	for i := g; i < len(raw); i++ {
+		sp := raw[i] == ' ' || raw[i] == '\t' || raw[i] == '\n'
+		if !sp && !in {
+			n++
+			if n > maxGenerateTokens {
+				return raw[:i]
+			}
+		}
+		in = !sp
+	}
+	return raw
+}
+
 // neutralise rewrites the files so that they are outside the class of riskyModifier.
 func neutralise(files map[string]string) {
 	for k, txt := range files {
-		if strings.Contains(strings.ToUpper(txt), "$GENERATE") {
-			files[k] = strings.ReplaceAll(txt, "${", "$ {")
+		if strings.Contains(normLex(txt), "$GENERATE") {
+			files[k] = strings.ReplaceAll(txt, "{", " {")
 		}
 	}
 }
@@ -407,6 +465,22 @@ func genHostile(t *rapid.T) hostileCase {
 		neutralise(c.Files)
 		c.Mutations = append(c.Mutations, "neutralised-modifiers")
 	}
+	if pbt.Known(kGenQuadratic) && longGenerate(c.Files) {
+		pbt.Excluded(kGenQuadratic)
+		for k, txt := range c.Files {
+			c.Files[k] = cutLongGenerate(txt)
+		}
+		c.Mutations = append(c.Mutations, "cut-long-generate")
+	}
+	if pbt.Known(kGenEOF) && endsInBareGenerate(c.Files) {
+		pbt.Excluded(kGenEOF)
+		for k, txt := range c.Files {
+			if genEOFRe.MatchString(normLex(txt)) {
+				c.Files[k] = txt + "\n"
+			}
+		}
+		c.Mutations = append(c.Mutations, "newline-after-bare-generate")
+	}
 	return c
 }
 
@@ -458,7 +532,7 @@ func genFault(t *rapid.T) faultCase {
 		NoCommentBeforeKeywordRdata: true, KeywordLike: keywordLike, AvoidEscapedOnly: true}
 	// the zone itself must parse on the pinned tree: the classes of C06's known findings are avoided
 	o.KeywordLike = keywordLike
-	o.LastOnlySamples = map[string]bool{"IPSECKEY": true}
+	o.BanSamples = map[string]bool{"IPSECKEY": true}
 	z := zm.GenZone(t, o)
 	den, err := zm.Denote(z)
 	if err != nil {
@@ -793,6 +867,22 @@ func init() {
 	// line together with the error
 	pbt.Probe(kGenErrRecord, func() error {
 		files := map[string]string{"g.db": "$GENERATE 0-1 host$ 300 A 10.0.0.1 ${0,0,D}\n"}
+		_, viol := runParser(files, parserCfg{File: "g.db", Origin: "example."}, nil)
+		if viol != nil {
+			return fmt.Errorf("%s", strings.SplitN(viol.Error(), "\n", 2)[0])
+		}
+		return nil
+	})
+	pbt.Probe(kGenQuadratic, func() error {
+		files := map[string]string{"g.db": "$GENERATE 1-1 a TXT" + strings.Repeat(" a", 10000) + "\n"}
+		_, viol := runParser(files, parserCfg{File: "g.db", Origin: "example."}, nil)
+		if viol != nil {
+			return fmt.Errorf("%s", strings.SplitN(viol.Error(), "\n", 2)[0])
+		}
+		return nil
+	})
+	pbt.Probe(kGenEOF, func() error {
+		files := map[string]string{"g.db": "a.example. 300 A 10.0.0.1\n$GENERATE 0-0"}
 		_, viol := runParser(files, parserCfg{File: "g.db", Origin: "example."}, nil)
 		if viol != nil {
 			return fmt.Errorf("%s", strings.SplitN(viol.Error(), "\n", 2)[0])
